@@ -1125,6 +1125,56 @@ func (g *gen) genDevice(b *vdev) (*vdev, []string) {
 	return a, note
 }
 
+// dropLdapMap: the target keeps its aaa-servers but gives up the ldap-attribute-map of one of them — the reference inside the
+// host line, the map and what only the map reached leave the TARGET; on the device the map stays, and the group-policies only it
+// reaches get hand-made names (no tag).
+func (g *gen) dropLdapMap(a, b *vdev) []string {
+	var host *block
+	for _, x := range b.Blocks {
+		if k, _ := headKind(x.words()); k == "aaa" && contains(x.words(), "host") {
+			for _, s := range x.Subs {
+				if strings.HasPrefix(s, "ldap-attribute-map ") {
+					host = x
+				}
+			}
+		}
+	}
+	if host == nil {
+		return nil
+	}
+	lm := ""
+	for j, s := range host.Subs {
+		if strings.HasPrefix(s, "ldap-attribute-map ") {
+			lm = strings.Fields(s)[1]
+			host.Subs = append(host.Subs[:j:j], host.Subs[j+1:]...)
+			break
+		}
+	}
+	if b.referencedBy(ref{"ldapmap", lm}) != "" {
+		return nil // another server of the target still uses it
+	}
+	b.removeAll(ref{"ldapmap", lm})
+	// what nothing references any more leaves the target; the device's counterparts become hand-made objects
+	for changed := true; changed; {
+		changed = false
+		for _, o := range b.objects() {
+			if (o.kind == "gp" || o.kind == "acl" || o.kind == "pool") && b.referencedBy(o) == "" {
+				b.removeAll(o)
+				changed = true
+				for _, da := range a.objects() {
+					if da.kind == o.kind && baseName(strings.TrimPrefix(da.name, "old-")) == o.name {
+						n := "manual-" + o.name
+						if !a.exists(ref{o.kind, n}) {
+							a.rename(da, n)
+						}
+					}
+				}
+			}
+		}
+	}
+	return []string{"target-gives-up-ldap-attribute-map"}
+}
+
 func (g *gen) freshSeqTmp(d *vdev, r ref, lo, hi int) string {
 	for i := 0; i < 80; i++ {
 		s := fmt.Sprint(lo + g.r.Intn(hi-lo+1))
